@@ -71,6 +71,25 @@ def call(prev, payload, limit=2):
     except Exception as ex: return f"raised {type(ex).__name__}: {str(ex)[:80]}"
     finally: signal.alarm(0)
 
+SWEEP_REPL = [b"\x06\x00\x01\x86\xa0", b"\x12\x01\x02", b"\x00", b"\x09\x0c" + bytes([0x07, 0xE4, 1, 1, 3, 0, 0, 0, 0xFF, 0x80, 0, 0]), b"\x09\x06" + bytes([1, 1, 96, 1, 1, 255]), b"\x0a\x03abc"]
+def _sweep_one(m):
+    """every element of one genuine message re-encoded as each of six other element kinds, under every remembered decoder"""
+    skip = 8 if m[:3] == b"\xe6\xe7\x00" else 0; toks = tokens(m[skip:]); N = len(autodecoder.AutoDecoder.payload_decoder_functions); out = []; ev = 0
+    for k in range(len(toks)):
+        for r in SWEEP_REPL:
+            if toks[k] == r: continue
+            payload = bytes(m[:skip]) + b"".join(toks[:k] + [r] + toks[k + 1:])
+            for prev in [None] + list(range(N)):
+                ev += 1; w = call(prev, payload)
+                if w: out.append({"payload": payload.hex(), "remembered_decoder": prev, "what": w})
+            if len(out) >= 3: return ev, out
+    return ev, out
+def typed_sweep(base):
+    import multiprocessing as mp
+    cos = [m for m in base if len(m) > 4 and m[0] in (0x01, 0x02, 0xE6)]
+    with mp.get_context("fork").Pool(min(14, max(1, len(cos)))) as pool_: res = pool_.map(_sweep_one, cos, chunksize=1)
+    return sum(e for e, _ in res), [b for _, o in res for b in o], len(cos)
+
 def fuzz(p):
     rnd = random.Random(p.get("seed", 0)); n = p.get("n", 3000); bad = []; ev = 0; kinds = collections.Counter()
     base = pool(rnd); N = len(autodecoder.AutoDecoder.payload_decoder_functions)
@@ -88,10 +107,18 @@ def fuzz(p):
                 key = r.split(":")[0]
                 if kinds[key] < 1: bad.append({"payload": payload.hex() if not payload.isascii() else payload.decode("latin1"), "remembered_decoder": prev, "what": r})
                 kinds[key] += 1
-    return {"name": "mutation fuzz of AutoDecoder.decode_message_payload / decode_message on the real code", "bound": f"{len(cands)} payloads (genuine messages of every layout, {n} mutations, random bytes, P1 fragments) x remembered decoder (all 8 for the first 400, random afterwards), 2 s per call",
+    sweep_note = ""
+    if p.get("sweep", True):
+        ev2, bad2, nmsg = typed_sweep(base); ev += ev2
+        for b in bad2:
+            key = b["what"].split(":")[0]
+            if kinds[key] < 1: bad.append(b)
+            kinds[key] += 1
+        sweep_note = f"; systematic sweep: every element of {nmsg} genuine messages re-encoded as 6 other element kinds x all remembered decoders"
+    return {"name": "mutation fuzz of AutoDecoder.decode_message_payload / decode_message on the real code", "bound": sweep_note.lstrip("; ") + " + " + f"{len(cands)} payloads (genuine messages of every layout, {n} mutations, random bytes, P1 fragments) x remembered decoder (all 8 for the first 400, random afterwards), 2 s per call",
             "evaluations": ev, "distinct_nontrivial": len(seen), "violations": bad[:8], "violation_kinds": dict(kinds)}
 
 def replay_p1text(p):
-    r = fuzz({"n": 600, "seed": 3})
+    r = fuzz({"n": 600, "seed": 3, "sweep": False})
     if r["violations"]: return {"violated": True, "detail": r["violations"][0], "found_by": "bounded fuzz"}
     return {"violated": False, "inconclusive": True}
